@@ -191,6 +191,8 @@ func cmdGen(args []string) {
 		genBlock(r, out, *n, *per)
 	case "inject":
 		genInject(r, out, *n, *per)
+	case "cpm":
+		genCPM(r, out, *n, *per)
 	default:
 		fmt.Fprintln(os.Stderr, "unknown gen kind", kind)
 		os.Exit(2)
